@@ -21,17 +21,20 @@ Flag(ok, what, detail) == IF ok THEN <<>> ELSE <<[line |-> l, what |-> what, det
 (* the checks at a command boundary *)
 Check(rec, tm) ==
     LET rows == rec.rows  cols == rec.cols
-        bad == {k \in 0..(rows - 1) : tm.grid[k + 1] # RenderRow(rec.lines, rec.top, k, rec.left, cols)}
+        (* with two windows (^Ws) the active one begins at terminal row beg; the other window is not constrained: it keeps
+           what it showed when it was left, whatever has happened to its buffer since *)
+        beg == IF "beg" \in DOMAIN rec THEN rec.beg ELSE 0
+        bad == {k \in 0..(rows - 1) : tm.grid[beg + k + 1] # RenderRow(rec.lines, rec.top, k, rec.left, cols)}
         k0 == IF bad = {} THEN 0 ELSE CHOOSE k \in bad : \A j \in bad : k <= j
         line == IF rec.row < Len(rec.lines) THEN rec.lines[rec.row + 1] ELSE <<>>
         cc == CursorCell(line, rec.xcol, rec.left)
     IN Flag(tm.bad = "", "terminal", tm.bad)
        \o Flag(rec.top <= rec.row /\ rec.row < rec.top + rows, "window", <<"cursor line outside the window", rec.top, rec.row, rows>>)
-       \o Flag(bad = {}, "screen", <<"row", k0, "shown", IF bad = {} THEN <<>> ELSE tm.grid[k0 + 1],
+       \o Flag(bad = {}, "screen", <<"row", k0, "shown", IF bad = {} THEN <<>> ELSE tm.grid[beg + k0 + 1],
                                       "repaint", IF bad = {} THEN <<>> ELSE RenderRow(rec.lines, rec.top, k0, rec.left, cols)>>)
        \o Flag(cc >= 0 /\ cc < cols, "hwindow", <<"the cursor column is outside the columns shown", cc, rec.left, cols>>)
-       \o Flag(tm.r = rec.row - rec.top /\ tm.c = Max2(0, Min2(cc, cols - 1)), "cursor",
-               <<"terminal cursor", tm.r, tm.c, "expected", rec.row - rec.top, cc>>)
+       \o Flag(tm.r = beg + rec.row - rec.top /\ tm.c = Max2(0, Min2(cc, cols - 1)), "cursor",
+               <<"terminal cursor", tm.r, tm.c, "expected", beg + rec.row - rec.top, cc>>)
 
 Init == l = 1 /\ t = NewTerm(24, 80) /\ viol = <<>> /\ nchk = 0
 Next == /\ l <= Len(Tr)
